@@ -117,6 +117,9 @@ def run(facts, chk, tier, only=None):
             else:
                 chk.violation('C20.iter', 'C20.iter:%s' % nm, where=CH + '::new', detail='violated: ' + why)
 
+    from . import c01
+    chk.guard('C20.window', 'C20.window:run', lambda: c01.check_guards(facts, chk, 'C20.window'))
+
     # ---------------------------------------------------------------- index conventions
     def index():
         res = []
